@@ -21,11 +21,31 @@ E = "EndOfEpisodeError"
 
 
 def run(ck, an, tier):
+    from sa.report import Renamed
+    from rules import ledger
+    d = Renamed(ck, "C05:")
+    ledger.marking_equations(d, an, {"equations", "margin"})      # the NLV tested is the liquidation-side, marked-to-market value
+    ledger.valuation_formulas(d, an, {"nlv"})
+    silent(ck, an)
     s1(ck, an)
     s2(ck, an)
     s3(ck, an)
     s4(ck, an)
     s5(ck, an, tier)
+
+
+def silent(ck, an):
+    """No caller opts out of the insolvency signal (raise_if_broke=False)."""
+    n = 0
+    for f, node in an.callers_of("Broker.net_liquidation_value"):
+        if not isinstance(node, ast.Call) or f.module.name.startswith("_fixture"):
+            continue
+        n += 1
+        vals = list(node.args[:1]) + [k.value for k in node.keywords if k.arg == "raise_if_broke"]
+        off = [v for v in vals if not (isinstance(v, ast.Constant) and v.value is True)]
+        ck.check(not off, "ARGFLOW", "S1.no-silent-valuation", f.short, f"{f.module.relpath}:{node.lineno}", f"{f.short} values the account with the raising default",
+                 f"{f.short} calls net_liquidation_value({ast.unparse(off[0]) if off else ''}): a non-positive NLV is returned silently instead of ending the episode", construct=stmt_text(node))
+    ck.floor("callers of Broker.net_liquidation_value", n, 6)
 
 
 def s1(ck, an):
